@@ -60,6 +60,7 @@ def mount (strict accDate lfnAlloc unicode : Bool) : Prog FsState := do
       rootDirSectors := g.rootDirSectors, firstDataSector := g.firstDataSector, totalClusters := g.totalClusters,
       totalSectors := g.totalSectors, rootCluster := g.rootDirFirstCluster, fsInfoSector := g.fsInfoSector,
       mirroring := g.mirroring, activeFat := g.activeFat, bpbDirty := g.statusDirty, bpbIoErr := g.statusIoError,
+      statusRaw := boot.bpb.reserved1,
       volumeId := boot.bpb.volumeId, volumeLabel := boot.bpb.volumeLabel,
       fsInfo := info, curDirty := g.statusDirty, curIoErr := g.statusIoError,
       strict := strict, accDate := accDate, lfnAlloc := lfnAlloc, unicode := unicode }
